@@ -94,10 +94,21 @@ class StubHTTPSession:
     def __init__(self, client):
         self.client = client
         self.resp = None
+        self.holding = False
+        self.body_error = None
+
+    def _drop(self):
+        if self.holding:
+            self.holding = False
+            self.client.held -= 1
 
     @asyncio.coroutine
     def start(self, request):
         c = self.client
+        # the real Session.start acquires a connection first; it stays checked out until download() completes (recycle) or the
+        # session is aborted / recycled by its owner - also when start() or download() raise
+        self.holding = True
+        c.held += 1
         request.prepare_for_send()              # what Stream.write_request does first
         c.sent.append(request.to_bytes())
         c.urls.append(request.url_info.url)
@@ -113,11 +124,14 @@ class StubHTTPSession:
             r.fields['Location'] = loc
         for k, v in (beh[2] if len(beh) > 2 else ()):
             r.fields.add(k, v)
+        self.body_error = beh[3] if len(beh) > 3 else None
         self.resp = r
         return r
 
     @asyncio.coroutine
     def download(self, file=None, duration_timeout=None):
+        if self.body_error:
+            raise ERRORS[self.body_error]()
         body = self.client.body_for(self.resp)
         self.resp.body = file if isinstance(file, Body) else Body(file)
         if body:
@@ -126,6 +140,7 @@ class StubHTTPSession:
             self.resp.body.write(body)
             self.resp.body.seek(offset)
         self.client.events.append(('download', self.resp.request.url_info.url))
+        self._drop()
         return self.resp
 
     def abort(self):
@@ -133,6 +148,7 @@ class StubHTTPSession:
 
     def recycle(self):
         self.client.events.append(('recycle',))
+        self._drop()
 
     def done(self):
         return True
@@ -149,6 +165,7 @@ class StubHTTPClient:
         self.requests = []
         self.events = []
         self.bodies = bodies or {}
+        self.held = 0                           # sessions that still hold a connection
 
     def answer(self, k, request):
         if self._answer:
